@@ -459,6 +459,10 @@ func c18Run(sc *C18Sc, env *Env, bubble bool) (res *Violation) {
 			cpu.BreakPoints[a] = struct{}{}
 		}
 	}
+	var imgBefore [65536]uint8
+	for a := 0; a < 65536; a++ {
+		imgBefore[a] = mem.Get(uint16(a))
+	}
 	nRet := 0
 	var finalErr error
 	for runs := 0; ; runs++ {
@@ -472,10 +476,11 @@ func c18Run(sc *C18Sc, env *Env, bubble bool) (res *Violation) {
 		err := cpu.Run(ctx)
 		c()
 		cancel = nil
-		if errors.Is(err, context.Canceled) {
+		if errors.Is(err, context.Canceled) && !(sc.BPAfter && nRet < len(rets) && cpu.PC == rets[nRet]) {
 			continue
 		}
-		if errors.Is(err, z80.ErrBreakPoint) {
+		// (a cancellation that ties with the arrival at a breakpoint may be reported as either: the arrival counts)
+		if errors.Is(err, z80.ErrBreakPoint) || errors.Is(err, context.Canceled) {
 			env.Fire("breakpoint-after-call")
 			switch {
 			case nRet < len(rets) && cpu.PC == rets[nRet]:
@@ -617,6 +622,19 @@ func c18Run(sc *C18Sc, env *Env, bubble bool) (res *Violation) {
 		for i, x := range b {
 			if mem.Get(st.Addr+uint16(i)) != x {
 				return viol("returns-to-caller", "the program's string byte at %04x changed (SP=%04x)", st.Addr+uint16(i), sc.SP)
+			}
+		}
+	}
+	// nothing else of the machine's memory either: only the stack slot of the CALL (plus the frames of
+	// the interrupt handlers, when requests were raised) may differ from the image the run started with
+	if len(sc.Second) == 0 {
+		frame := uint16(2)
+		if len(sc.Events) > 0 {
+			frame = 2 + 6*uint16(len(sc.Events)+1)
+		}
+		for a := 0; a < 65536; a++ {
+			if mem.Get(uint16(a)) != imgBefore[a] && sc.SP-uint16(a)-1 >= frame {
+				return viol("returns-to-caller", "memory[%04x] changed from %02x to %02x although neither the program nor its stack slot [%04x,%04x) lives there", a, imgBefore[a], mem.Get(uint16(a)), sc.SP-frame, sc.SP)
 			}
 		}
 	}
